@@ -559,6 +559,11 @@ def d2(ctx, prog, regs):
             stores = [s for s in body if isinstance(s, ast.Assign) and isinstance(s.targets[0], ast.Subscript) and norm(s.targets[0].value) == kwp]
             if len(stores) == 1 and norm(stores[0].value).startswith(f'{kwp}[') and norm(stores[0]) != want_store:
                 ctx.fail('C07-D2', f'{f.key}::mapping', f'`{norm(stores[0])}`: the metadata tagged {tag_attr} is not what reaches the parameter named {name_attr}', f.where(stores[0]))
+            elif not stores and any(isinstance(s, ast.If) and isinstance(s.test, ast.Compare) and len(s.test.ops) == 1 and isinstance(s.test.ops[0], ast.NotIn) and norm(s.test.left) == f'self.{name_attr}'
+                                    and norm(s.test.comparators[0]) == kwp and any(norm(x) == want_store for x in s.body) for s in body):
+                g_ = [s for s in body if isinstance(s, ast.If)][0]
+                ctx.fail('C07-D2', f'{f.key}::mapping', f'`if {norm(g_.test)}: {want_store}`: a metadata field that is itself called like the parameter ({name_attr}) is kept, so the value tagged {tag_attr} '
+                         'does not reach the function whenever the metadata hold both', f.where(g_))
             elif any(isinstance(s, ast.Expr) and isinstance(s.value, ast.Call) and norm(s.value.func) == f'{kwp}.setdefault' and len(s.value.args) == 2
                      and norm(s.value.args[0]) == f'self.{name_attr}' for s in body) and not stores:
                 sd = [s for s in body if isinstance(s, ast.Expr) and isinstance(s.value, ast.Call) and norm(s.value.func) == f'{kwp}.setdefault'][0]
